@@ -6,6 +6,7 @@ import (
 	"os/exec"
 	"path/filepath"
 	"regexp"
+	"sort"
 	"strings"
 	"sync"
 
@@ -382,4 +383,137 @@ func (cr *CheckRun) CheckClients(entries []CorpusEntry) {
 		return
 	}
 	cr.RunEntries(bin, entries, false, func(name string) bool { return false }, func(job *EmittedJob) { cr.CheckClient(job) })
+}
+
+// CheckTwins: C18.
+func (cr *CheckRun) CheckTwins(entries []CorpusEntry, corpusDir string) {
+	bin, err := BuildGoag(cr.Repo, cr.Scratch)
+	if err != nil {
+		cr.EngineErrors = append(cr.EngineErrors, err.Error())
+		return
+	}
+	cr.Assumed["the observables compared are those the Layer E contracts determine: routing, security wrapper, middleware/CORS behaviour, parameter acceptance and values, status/headers/body operations of Write, client request assembly and response kinds; JSON shape (C06-C08) is not covered"] = true
+	type pair struct{ a, b CorpusEntry }
+	var pairs []pair
+	for _, ce := range entries {
+		tw, err := TwinEntry(ce, filepath.Join(corpusDir, "twins"))
+		if err != nil || tw == nil {
+			continue
+		}
+		pairs = append(pairs, pair{ce, *tw})
+	}
+	props := map[string]bool{"C02": true, "C03": true, "C04": true, "C05": true, "C09": true, "C10": true, "C11": true, "C16": true, "C17": true}
+	sel := func(name string) bool {
+		return routingSel(name) || (strings.HasPrefix(name, "new") && strings.HasSuffix(name, "Params"))
+	}
+	type outcome struct {
+		gen, load error
+		failed    map[string]bool
+		total     int
+		ref       *RefSpec
+	}
+	run := func(ce CorpusEntry) outcome {
+		sub, _ := NewCheckRun("C18", cr.Tier, cr.Seed, cr.Repo, cr.VerifDir)
+		defer sub.Cleanup()
+		sub.Known = nil
+		job := sub.PrepareEmitted(bin, ce, false)
+		o := outcome{gen: job.Em.GenErr, load: job.Em.LoadErr, failed: map[string]bool{}, ref: job.Em.Ref}
+		if o.gen != nil || o.load != nil {
+			return o
+		}
+		filter := func(ob *Obligation) bool {
+			for _, p := range ob.Props {
+				if props[p] {
+					return true
+				}
+			}
+			return false
+		}
+		for _, f := range job.Em.W.Functions() {
+			if !sel(relName(f)) {
+				continue
+			}
+			e := job.enc(f)
+			e.PostEncode = func() { tagProps(e, "C14") }
+			sub.VerifyFunc(e, ce.Name, filter, nil)
+		}
+		sub.Prop = "C02"
+		sub.CheckWrites(job)
+		sub.Prop = "C10"
+		sub.CheckClient(job)
+		sub.Prop = "C09"
+		sub.CheckClient(job)
+		strip := func(n string) string {
+			n = strings.ReplaceAll(n, "emitted["+ce.Name+"]", "emitted")
+			return n
+		}
+		for _, f := range sub.Failures {
+			o.failed[strip(f.Obl.Name)] = true
+		}
+		o.total = sub.Obligations
+		cr.mu.Lock()
+		for k := range sub.Functions {
+			cr.Functions[k] = true
+		}
+		for k := range sub.Assumed {
+			cr.Assumed[k] = true
+		}
+		cr.mu.Unlock()
+		os.RemoveAll(job.Em.Dir)
+		return o
+	}
+	sem := make(chan struct{}, 4)
+	done := make(chan struct{}, len(pairs))
+	for _, p := range pairs {
+		p := p
+		sem <- struct{}{}
+		go func() {
+			defer func() { <-sem; done <- struct{}{} }()
+			a, b := run(p.a), run(p.b)
+			name := "twin[" + p.a.Name + "]"
+			cr.mu.Lock()
+			cr.Programs = append(cr.Programs, p.a.Name, p.b.Name)
+			cr.mu.Unlock()
+			okGen := (a.gen == nil) == (b.gen == nil) && (a.load == nil) == (b.load == nil)
+			detail := ""
+			if !okGen {
+				detail = fmt.Sprintf("$ref form: gen=%v load=%v; inlined form: gen=%v load=%v", a.gen, a.load, b.gen, b.load)
+			}
+			cr.recordSimple(name+"/both-generate", okGen, detail, "generator + go/packages")
+			if a.gen != nil || b.gen != nil || a.load != nil || b.load != nil {
+				return
+			}
+			cr.recordSimple(name+"/same-contract-instance", sameSignature(a.ref, b.ref), "the reference readings of the two forms differ", "structural comparison")
+			// obligations failing in exactly one form
+			var only []string
+			for k := range a.failed {
+				if !b.failed[k] {
+					only = append(only, "$ref form only: "+k)
+				}
+			}
+			for k := range b.failed {
+				if !a.failed[k] {
+					only = append(only, "inlined form only: "+k)
+				}
+			}
+			sort.Strings(only)
+			cr.mu.Lock()
+			cr.Extra["obligations_in_"+p.a.Name] = a.total
+			cr.Extra["obligations_in_"+p.b.Name] = b.total
+			cr.mu.Unlock()
+			cr.recordSimple(name+"/same-verdicts", len(only) == 0, strings.Join(only, "; "), fmt.Sprintf("z3 (%d + %d obligations of the Layer E contracts)", a.total, b.total))
+			both := 0
+			for k := range a.failed {
+				if b.failed[k] {
+					both++
+				}
+			}
+			if both > 0 {
+				cr.Note("%s: %d obligations fail in both forms (not a $ref difference; see the property they belong to)", p.a.Name, both)
+			}
+		}()
+	}
+	for range pairs {
+		<-done
+	}
 }
